@@ -355,6 +355,8 @@ theorem indexFiles_inv (user : Bytes) (files : List FileIn) (i : Nat) (u u' : Up
       simp only at hf
       split at hf
       · cases hf
+      split at hf
+      · cases hf
       · simp only [Option.some.injEq] at hf
         have hres : ∀ r ∈ (Reader.addLabels {} (metaLabels u.id i user f.name)).all f.content,
             (uploadKey, u.id) ∈ r.labels := by
